@@ -46,23 +46,7 @@ Proof.
   - destruct g; simpl; try exact H. destruct (seqr f r e); simpl in *; exact IH.
 Qed.
 
-Lemma body_ind' (P:body->Prop) :
-  (forall f args, P (BCall f args)) -> P BTrue -> P BFail -> P BCut -> (forall l, P (BMark l)) ->
-  (forall a b, P a -> P b -> P (BAnd a b)) ->
-  (forall a b, isif a = false -> P a -> P b -> P (BOr a b)) ->
-  (forall c t e, P c -> P t -> P e -> P (BOr (BIf c t) e)) ->
-  (forall c t, P c -> P t -> P (BIf c t)) ->
-  (forall a, P a -> P (BNot a)) -> forall b, P b.
-Proof.
-  intros Hc Ht Hf Hcut Hci Hand Hor Hite Hif Hnot b.
-  enough (H: P b /\ match b with BIf c t => P c /\ P t | _ => True end) by apply H.
-  induction b; try (split; auto; fail).
-  - split; [apply Hand; tauto|exact Logic.I].
-  - split; [|exact Logic.I]. destruct b1; try (apply Hor; [reflexivity|tauto|tauto]).
-    apply Hite; tauto.
-  - split; [apply Hif; tauto|tauto].
-  - split; [apply Hnot; tauto|exact Logic.I].
-Qed.
+
 
 Lemma por_fin (P:fin->Prop) (ra rb:res S) : (snd ra = FNorm \/ P (snd ra)) -> P (snd rb) -> P (snd (por ra rb)).
 Proof. destruct ra as [xs fa], rb as [ys g]; simpl; intros [H|H] Hb; subst; simpl; auto. destruct fa; simpl; auto. Qed.
